@@ -277,7 +277,9 @@ func c03FastFloat(c *Ctx, p *Prog, R string) {
 					return nil, false
 				}
 				isAcc := func(z *Sym) bool { return z.Op == "opaque" && strings.Contains(z.Name, "phi:"+a.acc.Comment) }
-				isByte := func(z *Sym) bool { return (z.Op == "load" || z.Op == "index" || z.Op == "opaque" || z.Op == "extract") && !isAcc(z) }
+				isByte := func(z *Sym) bool {
+					return (z.Op == "load" || z.Op == "index" || z.Op == "opaque" || z.Op == "extract") && !isAcc(z)
+				}
 				// normalise to  e op n  with the constant on the right
 				op := s.Tok
 				e, n, okN := x, (*big.Int)(nil), false
